@@ -193,6 +193,10 @@ def run(ctx):
     C10.invariant_rules(ctx, w)
     tree_link_rule(ctx, w)
     redacts_fallback_rule(ctx, w, "C17.redacts-fallback")
+    # the literal word search of push conditions consumes at least one character per iteration (its loop has an exit, but an exit that is never taken
+    # is a hang): the progress argument is the one C12 decides for the skipping step
+    from . import C12 as _C12
+    _C12.word_skip_rule(ctx, w, "C17.word-skip")
 
     if ctx.tier == "thorough":
         # build configuration B: the API crates with client+server features (generated request/response conversions, the multipart
